@@ -216,8 +216,14 @@ func genbankKeywordsParser(gb *GenBank, depth int) pars.Parser {
 }
 
 func genbankSourceParser(gb *GenBank, depth int) pars.Parser {
-	sourceParser := genbankGenericFieldParser("SOURCE", depth)
-	sourceParser = sourceParser.Map(func(result *pars.Result) error {
+	sourceNameParser := genbankFieldNameParser("SOURCE", depth)
+	sourceBodyParser := genbankFieldBodyParser(depth, ' ')
+	sourceParser := pars.Parser(func(state *pars.State, result *pars.Result) error {
+		if err := sourceNameParser(state, pars.Void); err != nil {
+			return err
+		}
+		// The writer wraps the species at spaces: join the lines with spaces.
+		sourceBodyParser(state, result)
 		gb.Fields.Source.Species = string(result.Token)
 		return nil
 	})
